@@ -5,6 +5,8 @@ import (
 	"go/types"
 	"math"
 	"strings"
+
+	"golang.org/x/tools/go/ssa"
 )
 
 // ---------- harness intrinsics (functions named vh* defined in the overlay harness library) ----------
@@ -63,8 +65,15 @@ func init() {
 					maxLen = int64(t.U)
 				}
 			}
-			c.st.addPC(app(BoolSort, "<=", app(IntSort, "str.len", s), IntC(maxLen)))
-			c.st.addPC(&Term{Sort: BoolSort, S: fmt.Sprintf("(str.in_re %s (re.* (re.range \"\\u{0}\" \"\\u{ff}\")))", s.S), size: 3})
+			c.ex.constrainStr(c.st, s, maxLen, 0, 255)
+			c.Return(s)
+		},
+		// vhStrRange(name, maxLen, lo, hi): a string of at most maxLen bytes, every byte in lo..hi
+		"vhStrRange": func(c *CallCtx) {
+			s := c.ex.input(c.st, "str", strArg(c.args[0]), StrSort)
+			maxLen := int64(c.args[1].(*Term).U)
+			lo, hi := c.args[2].(*Term).U, c.args[3].(*Term).U
+			c.ex.constrainStr(c.st, s, maxLen, lo, hi)
 			c.Return(s)
 		},
 		"vhAssume": func(c *CallCtx) {
@@ -145,6 +154,52 @@ func init() {
 	// vhSymbolic() bool : true under the engine, false natively
 		"vhSymbolic": func(c *CallCtx) { c.Return(True) },
 	}
+}
+
+// constrainStr restricts a fresh symbolic string to at most maxLen bytes, each in lo..hi.
+func (ex *Exec) constrainStr(st *State, s *Term, maxLen int64, lo, hi uint64) {
+	if bstrL > 0 {
+		if maxLen > int64(bstrL) {
+			unsupported("symbolic string of up to %d bytes exceeds the representation bound %d", maxLen, bstrL)
+		}
+		st.addPC(bsCanonical(s))
+		st.addPC(bvCmp("bvule", StrLen(s), BVC(64, uint64(maxLen))))
+		if lo > 0 || hi < 255 {
+			for i := int64(0); i < maxLen; i++ {
+				b := StrAt(s, BVC(64, uint64(i)))
+				st.addPC(Or(bvCmp("bvule", StrLen(s), BVC(64, uint64(i))), And(bvCmp("bvuge", b, BVC(8, lo)), bvCmp("bvule", b, BVC(8, hi)))))
+			}
+		}
+		return
+	}
+	st.addPC(app(BoolSort, "<=", app(IntSort, "str.len", s), IntC(maxLen)))
+	st.addPC(&Term{Sort: BoolSort, S: fmt.Sprintf("(str.in_re %s (re.* (re.range \"\\u{%x}\" \"\\u{%x}\")))", s.S, lo, hi), size: 3})
+}
+
+// freshStr: an unconstrained symbolic string (canonical in the bounded representation).
+func (ex *Exec) freshStr(st *State, hint string) *Term {
+	s := ex.fresh(StrSort, hint)
+	if bstrL > 0 {
+		st.addPC(bsCanonical(s))
+	}
+	return s
+}
+
+// concat: a ++ b; in the bounded representation paths on which the result would not fit are cut and counted.
+func (ex *Exec) concat(st *State, a, b *Term) *Term {
+	fits := strFits(a, b)
+	if fits.Const {
+		if fits.U == 0 {
+			ex.boundHits["string longer than the representation bound"]++
+			st.status = "killed:string-bound"
+		}
+		return StrConcat(a, b)
+	}
+	if ex.feasible(st, Not(fits)) != "unsat" {
+		ex.boundHits["string longer than the representation bound"]++
+	}
+	st.addPC(fits)
+	return StrConcat(a, b)
 }
 
 // sameFloat: both NaN, or identical bit patterns (so -0 != +0).
@@ -262,7 +317,7 @@ func libStubs() map[string]StubFn {
 		m[n] = noop
 	}
 	// fmt: results are opaque strings / errors
-	m["fmt.Sprintf"] = func(c *CallCtx) { c.Return(c.ex.fresh(StrSort, "sprintf")) }
+	m["fmt.Sprintf"] = func(c *CallCtx) { c.Return(c.ex.freshStr(c.st, "sprintf")) }
 	m["fmt.Sprint"] = m["fmt.Sprintf"]
 	m["fmt.Errorf"] = func(c *CallCtx) { c.Return(Iface{T: compileErrorType, V: StrC("fmt.Errorf")}) }
 	m["errors.New"] = func(c *CallCtx) { c.Return(Iface{T: compileErrorType, V: c.args[0]}) }
@@ -281,6 +336,38 @@ func libStubs() map[string]StubFn {
 			return
 		}
 		c.Return(app(BVSort(64), "strcount", s, sep))
+	}
+	m["strings.Join"] = func(c *CallCtx) {
+		sl, ok := c.args[0].(SliceV)
+		if !ok || !sl.Len.Const {
+			unsupported("strings.Join on a slice of symbolic length")
+		}
+		out := StrC("")
+		if sl.Obj != 0 {
+			arr := c.st.heap[sl.Obj].(*ArrV)
+			for i := 0; i < int(sl.Len.U); i++ {
+				if i > 0 {
+					out = c.ex.concat(c.st, out, c.args[1].(*Term))
+				}
+				out = c.ex.concat(c.st, out, arr.Elems[sl.Off+i].(*Term))
+			}
+		}
+		c.Return(out)
+	}
+	// error values built by the errors.New / fmt.Errorf stubs: Error() returns the payload
+	m["invoke:error.Error"] = func(c *CallCtx) {
+		i, ok := c.args[0].(Iface)
+		if ok && i.T == compileErrorType {
+			if t, ok := i.V.(*Term); ok && t.Sort == StrSort {
+				c.Return(t)
+				return
+			}
+		}
+		if !ok {
+			unsupported("Error() on %T", c.args[0])
+		}
+		fn, rv := c.ex.resolveInvoke(i, c.instr.(*ssa.Call).Call.Method)
+		c.ex.invoke(c.st, nil, fn, []Value{rv}, c.retTo, false, c.instr)
 	}
 	m["math.Float64bits"] = func(c *CallCtx) { c.Return(FPToBits(c.args[0].(*Term))) }
 	m["math.Float32bits"] = func(c *CallCtx) { c.Return(FPToBits(c.args[0].(*Term))) }
